@@ -177,6 +177,18 @@ void std_population(Env& e, Population& pop, vf::Outcome& out)
    }
 }
 
+// A qualifier set named by one generated byte: a non-empty subset of {const, volatile, restrict}; one byte value in
+// eight also carries extension qualifiers (ipr::Qualifiers is an open set over a machine word: "kept abstract to allow
+// extensions"), placed in the upper half of the word.
+constexpr std::uintptr_t ext_mask = (std::uintptr_t(1) << 40) | (std::uintptr_t(1) << 33);
+inline std::uintptr_t set_of(std::uint8_t b)
+{
+   std::uintptr_t bits = 1u + b % 7u;
+   if (b >= 224) bits |= std::uintptr_t(1) << 40;
+   if (b >= 240) bits |= std::uintptr_t(1) << 33;
+   return bits;
+}
+
 // the empty set is refused -- over an unqualified and over an already qualified operand alike
 void expect_empty_refused(vf::Outcome& out, impl::Lexicon& L, const Type& t, const char* where)
 {
@@ -219,7 +231,7 @@ void run_in(Env& e, const Case& c, vf::Outcome& out)
    std::uintptr_t all = 0;
    const Type* cur = &T;
    for (std::size_t i = 0; i < c.chain.size(); ++i) {
-      const std::uintptr_t bits = 1u + c.chain[i] % 7u;
+      const std::uintptr_t bits = set_of(c.chain[i]);
       all |= bits;
       const Qualified* q = qualify(bits, *cur, "chain");
       if (!q) return;
@@ -237,7 +249,7 @@ void run_in(Env& e, const Case& c, vf::Outcome& out)
    std::uintptr_t got = 0;
    const Type* other = &T;
    for (auto b : c.regroup) {
-      const std::uintptr_t bits = (b % 8u) & all;
+      const std::uintptr_t bits = ((b % 8u) | (b >= 128 ? ext_mask : 0)) & all;
       if (bits == 0) continue;
       got |= bits;
       other = qualify(bits, *other, "regroup");
@@ -247,12 +259,13 @@ void run_in(Env& e, const Case& c, vf::Outcome& out)
    if (!other) return;
    if (!physically_same(*other, *cur)) out.fail("C11:normal-form:regroup", "a different order / grouping of the same qualifiers gave a different node");
    // re-qualifying with a subset of what is already there changes nothing
-   const Qualified* again = qualify(all & (1u + c.chain[0] % 7u), *cur, "idempotent");
+   const Qualified* again = qualify(all & set_of(c.chain[0]), *cur, "idempotent");
    if (!again) return;
    if (!physically_same(*again, *cur)) out.fail("C11:normal-form:idempotent", "re-applying qualifiers already present gave a different node");
    out.nontrivial = c.chain.size() >= 2;
    out.count("chain_len_" + std::to_string(std::min<std::size_t>(c.chain.size(), 9)));
-   out.count(all == 7 ? "union_cvr" : "union_partial");
+   out.count((all & 7) == 7 ? "union_cvr" : "union_partial");
+   if (all & ext_mask) out.count("chains_with_extension_qualifiers");
 }
 
 vf::Outcome run_case(const Case& c, const vf::Options&)
